@@ -462,6 +462,43 @@ def raw_row(kind, dr, u, s, fs):
     return dr[:, None] * u * np.power(s, 1 - fs)[None, :]
 
 
+def judge_model_predict(ctx, case, out, row, model, got):
+    """Model-vs-implementation comparison of predict on one row, consistent with the oracle:
+      * a captured singular value below 1e-9 of the largest while predict divides by sigma^fs (fs > 0; PCA: fs = 1):
+        a mismatch is the recorded zero-singular-value finding (check='predict', cause='zero_singular_value'), not a
+        correspondence failure; between 1e-9 and 1e-5: ill-conditioned, dropped;
+      * normalized and the row's exact embedding is null (round-off noise blown up to an arbitrary unit vector), or two
+        captured singular values within 1e-6 relative (singular vectors determined only up to a rotation, the noise rows
+        of such a block are the ones normalisation makes arbitrary): dropped and counted in margin_dropped."""
+    kind = case['kind']
+    s = np.asarray(out['singular_values'], dtype=float)
+    fsp = 1.0 if kind == 'PCA' else case.get('factor_singular', 0.)
+    ratio = float(s.min() / s.max()) if len(s) and s.max() > 0 else 0.0
+    mismatch = not (np.isfinite(got).all() and close(model, got, 1e-8))
+    if fsp > 0 and ratio < 1e-9:
+        if mismatch:
+            ctx.violation(kind + '.predict', 'predict on a row of the fitted matrix does not reproduce that row\'s embedding',
+                          case=case, check='predict', cause='zero_singular_value', kind=kind, row=row, via='model',
+                          normalized=case['normalized'], factor_singular=case.get('factor_singular', 0.),
+                          expected=model.tolist(), observed=got.tolist())
+        return
+    if fsp > 0 and ratio < 1e-5:
+        ctx.margin_dropped += 1
+        return
+    if case['normalized']:
+        a, m, dr, dc, wc = gsvd_setup(case)
+        u = np.asarray(out['left'], dtype=float).reshape(a.shape[0], -1)
+        rawn = np.sqrt((raw_row(kind, dr, u, s, case.get('factor_singular', 0.)) ** 2).sum(axis=1))
+        ss = np.sort(s)
+        degenerate = bool((np.diff(ss) <= 1e-6 * ss[1:]).any()) if len(ss) > 1 else False
+        if rawn[row] <= 1e-9 * max(float(rawn.max()), 1e-300) or degenerate:
+            ctx.margin_dropped += 1
+            return
+    if mismatch:
+        ctx.violation(kind + '.predict', 'implementation differs from the Coq model of predict', case=case,
+                      check='correspondence', kind=kind, row=row, expected=model.tolist(), observed=got.tolist())
+
+
 def gsvd_model_args(case, out):
     a = dense(case['m'])
     nr, nc = a.shape
@@ -542,12 +579,7 @@ def run_gsvd_correspondence(ctx, items):
         got = np.asarray(out['predict'][str(row)]['ok'], dtype=float).reshape(-1)
         model = np.array([fl(x) for x in frv(p)])
         ctx.count('corr:%s.predict' % case['kind'], ('corrp', case, row), True)
-        sv = np.asarray(out['singular_values'], dtype=float)
-        if not np.isfinite(got).all() or (case.get('factor_singular', 0.) > 0 and sv.min() < 1e-5 * sv.max()):
-            continue     # division by a (nearly) zero singular value: judged by the oracle; the model (Q: x / 0 = 0) does not apply
-        if not close(model, got, 1e-8):
-            ctx.violation(case['kind'] + '.predict', 'implementation differs from the Coq model of predict', case=case,
-                          check='correspondence', kind=case['kind'], row=row, expected=model.tolist(), observed=got.tolist())
+        judge_model_predict(ctx, case, out, row, model, got)
 
 
 def run_pca_correspondence(ctx, items):
@@ -590,14 +622,8 @@ def run_pca_correspondence(ctx, items):
     for (n_item, row), p in zip(pwho, preds):
         case, out = items[n_item]
         got = np.asarray(out['predict'][str(row)]['ok'], dtype=float).reshape(-1)
-        sv = np.asarray(out['singular_values'], dtype=float)
         ctx.count('corr:PCA.predict', ('corrp', case, row), True)
-        if not np.isfinite(got).all() or sv.min() < 1e-5 * sv.max():
-            continue
-        model = np.array([fl(x) for x in frv(p)])
-        if not close(model, got, 1e-8):
-            ctx.violation('PCA.predict', 'implementation differs from the Coq model of predict', case=case,
-                          check='correspondence', kind='PCA', row=row, expected=model.tolist(), observed=got.tolist())
+        judge_model_predict(ctx, case, out, row, np.array([fl(x) for x in frv(p)]), got)
 
 
 # ------------------------------------------------------------------------------------------------
